@@ -166,6 +166,8 @@ Definition p_descop (v : val) : option desc_op :=
   | VL [VI 19%Z; b] => do b <- p_bool b; Some (DSetHasSubSegments b)
   | VL [VI 20%Z; VI j; VB b] => Some (DMidSetUPID (Z.to_nat j) b)
   | VL [VI 21%Z; VI j; VI x] => Some (DMidSetUPIDType (Z.to_nat j) (w8 (zN x)))
+  | VL [VI 22%Z; VI j; VL [VI 0%Z; VI x]] => Some (DComp (Z.to_nat j) (CoSetTag (w8 (zN x))))
+  | VL [VI 22%Z; VI j; VL [VI 1%Z; VI x]] => Some (DComp (Z.to_nat j) (CoSetOffset (w64 (zN x))))
   | _ => None
   end.
 Definition p_newcmd (v : val) : option (N * list cmd_op) :=
@@ -194,9 +196,9 @@ Definition build_reply (start : Res scte) (ops : list sig_op) : val :=
 
 
 (* ---------------- scte.hist: ONE signal observed after every step; arguments taken from its own getters ----------------
-   [9 i [22 sels]]  Descriptors()[i].SetMID(list of own MID() entries (an index) and fresh UPIDs ([ty xbytes]))
-   [9 i [23 sels]]  Descriptors()[i].SetComponents(own Components() entries by index)
-   [9 i [24]]       Descriptors()[i].SetUPID(own UPID())
+   [9 i [32 sels]]  Descriptors()[i].SetMID(list of own MID() entries (an index) and fresh UPIDs ([ty xbytes]))
+   [9 i [33 sels]]  Descriptors()[i].SetComponents(own Components() entries by index)
+   [9 i [34]]       Descriptors()[i].SetUPID(own UPID())
    [10 sels]        SetDescriptors(own Descriptors() by index, no repetition)
    [11]             SetCommandInfo(own CommandInfo())
    A value obtained from a getter is a copy in Gallina: each of these is resolved, against the current state, into the
@@ -213,10 +215,10 @@ Definition sel_mid (own : list Scte.upid) (v : val) : option (list (N * bytes)) 
   end.
 Definition ext_descop (d : segdesc) (v : val) : option desc_op :=
   match v with
-  | VL [VI 22%Z; VL sels] => do l <- p_list (sel_mid (get_mid d)) sels; Some (DSetMID (List.concat l))
-  | VL [VI 23%Z; VL sels] =>
+  | VL [VI 32%Z; VL sels] => do l <- p_list (sel_mid (get_mid d)) sels; Some (DSetMID (List.concat l))
+  | VL [VI 33%Z; VL sels] =>
     do l <- p_list (pick (d_components d)) sels; Some (DSetComponents (map (fun c => (co_tag c, co_off c)) (List.concat l)))
-  | VL [VI 24%Z] => Some (DSetUPID (get_upid d))
+  | VL [VI 34%Z] => Some (DSetUPID (get_upid d))
   | _ => p_descop v
   end.
 Definition ext_step (s : scte) (v : val) : option scte :=
